@@ -125,9 +125,9 @@ fn set_heights(p: &mut StarkProof) {
     }
 }
 
-pub const GROUPS: [&str; 11] = [
+pub const GROUPS: [&str; 15] = [
     "n_queries", "blowup", "blowup_mod_p", "trace_size", "last_layer_bound", "n_layers", "n_friendly", "fri_input_only", "steps_all",
-    "big_domain", "step1_shift",
+    "big_domain", "step1_shift", "zero_columns", "output_span", "program_span", "trailing_step",
 ];
 
 pub fn group_values(name: &str) -> Vec<u64> {
@@ -146,6 +146,15 @@ pub fn group_values(name: &str) -> Vec<u64> {
         "big_domain" => vec![56, 57, 60, 61, 62, 63, 64, 65, 66, 70, 71],
         // first inner step raised by v (1..=3), the second lowered by v, columns and heights following
         "step1_shift" => vec![1, 2, 3],
+        // table v (0 original trace, 1 interaction trace, 2 composition, 3 first FRI layer) declared with
+        // zero columns and its decommitted values emptied (0 x queries == 0 cells)
+        "zero_columns" => vec![0, 1, 2, 3],
+        // output segment of v cells / program of v cells (spans at the edge of the machine word)
+        "output_span" => vec![1, 5, 1 << 32, 1 << 63, u64::MAX - 1, u64::MAX],
+        "program_span" => vec![0, 1 << 32, 1 << 63, u64::MAX - 5, u64::MAX - 1, u64::MAX],
+        // one surplus trailing FRI step x (v<100: x = v; v>=100: x = p-(v-100)) with the last-layer bound
+        // re-declared to lb - x, so that a sum over the WHOLE step vector still matches the trace size
+        "trailing_step" => vec![1, 2, 101, 102, 104],
         _ => vec![],
     }
 }
@@ -162,6 +171,17 @@ pub fn cross_blowup_queries() -> Vec<Edit> {
     for q in [1u64, 16, 48] {
         for c in [0u64, 17, 64, 1 << 16] {
             out.push(Edit::Multi(vec![Edit::Group("blowup".into(), c), Edit::Group("n_queries".into(), q)]));
+        }
+    }
+    out
+}
+
+/// program length and output length that overflow the machine word only together
+pub fn cross_spans() -> Vec<Edit> {
+    let mut out = vec![];
+    for pl in [u64::MAX, u64::MAX - 1, u64::MAX - 5, 1u64 << 63] {
+        for ol in [1u64, 5, 1 << 63, u64::MAX] {
+            out.push(Edit::Multi(vec![Edit::Group("program_span".into(), pl), Edit::Group("output_span".into(), ol)]));
         }
     }
     out
@@ -267,6 +287,50 @@ pub fn apply_group(p: &mut StarkProof, name: &str, v: u64) {
                 set_heights(p);
             }
         }
+        "zero_columns" => match v {
+            0 => {
+                p.config.traces.original.n_columns = Felt::ZERO;
+                p.witness.traces_decommitment.original.values.clear();
+            }
+            1 => {
+                p.config.traces.interaction.n_columns = Felt::ZERO;
+                p.witness.traces_decommitment.interaction.values.clear();
+            }
+            2 => {
+                p.config.composition.n_columns = Felt::ZERO;
+                p.witness.composition_decommitment.values.clear();
+            }
+            _ => {
+                if let Some(l) = p.config.fri.inner_layers.first_mut() {
+                    l.n_columns = Felt::ZERO;
+                }
+                if let Some(w) = p.witness.fri_witness.layers.first_mut() {
+                    w.leaves.clear();
+                }
+            }
+        },
+        "output_span" => {
+            if let Some(sg) = p.public_input.segments.get_mut(2) {
+                sg.stop_ptr = sg.begin_addr + f;
+            }
+        }
+        "program_span" => {
+            // program length = initial_ap - 2 - initial_pc
+            let pc = p.public_input.segments.first().map(|s| s.begin_addr).unwrap_or(Felt::ONE);
+            if let Some(sg) = p.public_input.segments.get_mut(1) {
+                sg.begin_addr = pc + Felt::TWO + f;
+            }
+        }
+        "trailing_step" => {
+            let x = if v < 100 { Felt::from(v) } else { Felt::ZERO - Felt::from(v - 100) };
+            p.config.fri.fri_step_sizes.push(x);
+            p.config.fri.log_last_layer_degree_bound -= x;
+            if let Some(lb) = vcommon::fu64(&p.config.fri.log_last_layer_degree_bound) {
+                if lb <= 16 {
+                    p.unsent_commitment.fri.last_layer_coefficients.resize(1usize << lb, Felt::ZERO);
+                }
+            }
+        }
         "steps_all" => {
             let n = p.config.fri.fri_step_sizes.len();
             for s in p.config.fri.fri_step_sizes.iter_mut().skip(1) {
@@ -356,7 +420,13 @@ pub fn edits_for(base: &Value, rng: &mut Rng, thorough: bool, budget_singles: us
         let ps = path_str(l);
         let dyn_switch = ps.contains("dynamic_params.uses_") || (ps.contains("dynamic_params.") && ps.ends_with("row_ratio")) || ps.ends_with("cpu_component_step") || ps.contains("num_columns_");
         let structural = cls.starts_with("config") || (cls.starts_with("public_input") && !cls.contains("main_page") && !cls.contains("dynamic_params")) || cls.contains("nonce") || dyn_switch;
-        for (k, v) in mutate::extreme_values(is_hex, mutate::int_max_for(l)) {
+        let mut vals = mutate::extreme_values(is_hex, mutate::int_max_for(l));
+        if structural {
+            if let Some(orig) = mutate::leaf_big(cur) {
+                vals.extend(mutate::relative_values(&orig, is_hex));
+            }
+        }
+        for (k, v) in vals {
             let e = Edit::Set(l.clone(), k, v);
             if structural {
                 singles.push(e);
@@ -392,6 +462,7 @@ pub fn edits_for(base: &Value, rng: &mut Rng, thorough: bool, budget_singles: us
         cross.truncate(40);
     }
     out.extend(cross);
+    out.extend(cross_spans());
     let n_pairs = if thorough { 1500 } else { 60 };
     let pool: Vec<Edit> = out.clone();
     for _ in 0..n_pairs {
@@ -453,6 +524,10 @@ pub fn run(args: &Args) -> Report {
             }
             let label = edit_label(&e);
             let d = json!({"proof": h.name, "edit": label});
+            if worker.skips(&edit_class(&e)) {
+                rep.inc("skipped.class_with_established_worker_deaths");
+                continue;
+            }
             worker.begin(idx - 1, &edit_class(&e), &d.to_string());
             if let Some(mp) = apply_edit(&h.proof, &base, &e) {
                 let run = trace::run_verify(&h.layout, &mp, sec, 300_000);
